@@ -231,6 +231,10 @@ def c09_silence(res, r, slack=chist_slack()):
     for i, op in enumerate(r.log):
         if op[0] in ('reply', 'wsframe', 'wsframeclose', 'wsanswer', 'wsclose') or (op[0] == 'call' and op[1] == 'connect'):
             last = r.times[i]
+        if any(o[0] == 'http' and o[2] == 'poll' for o in r.outs[i]):
+            # the client has just started a long poll (for instance after an upgrade probe that was not answered within the request
+            # time-out): the poll carries its own deadline, the bound runs from here
+            last = r.times[i]
         for p in pkts_of(op):
             if p[0] == 'open' and p[1]:
                 I, T = p[3], p[4]
